@@ -21,7 +21,7 @@ func init() { core.Register(c04{}) }
 func (c04) ID() string    { return "C04" }
 func (c04) Level() string { return "exploration" }
 func (c04) Rule() string {
-	return "two history sources, both recorded at the container.SingletonComponentRegistry interface by a call tracer and checked offline against a sequential per-name state machine (absent -> creating[early reference?] -> published | failed). (1) direct driving of the real support.DefaultSingletonComponentRegistry() by a generated protocol-respecting client: random trees of nested get-or-create (depth <= 6, <= 8 names), creating closures that optionally add an early-reference factory (which may itself fail), look themselves / ancestors / other names up with and without allowEarlyReference, query IsSingletonCurrentlyInCreation, swallow or propagate nested failures, fail or succeed; histories continue after failures with re-lookups and re-creations. (2) traced real starts of cyclic / faulty scenarios (Init / AfterPropertiesSet failures in eager and lazy components) continued after App.Run with two rounds of GetComponentByName for every name. Clauses: (a) all lookups during one creation see one early reference, early factory yields at most one reference per creation; (b) after publication every lookup returns the published instance and the name is not in creation; (c) after a failed creation the name is not in creation and no lookup returns an instance with a nil error unless a new creation completed. non-trivial = history with a nested create and an early lookup (and, counted separately, a failure followed by a lookup); distinct = trace shape hash"
+	return "two history sources, both recorded at the container.SingletonComponentRegistry interface by a call tracer and checked offline against a sequential per-name state machine (absent -> creating[early reference?] -> published | failed). (1) direct driving of the real support.DefaultSingletonComponentRegistry() by a generated protocol-respecting client: random trees of nested get-or-create (depth <= 6, <= 8 names), creating closures that optionally add an early-reference factory (which may itself fail), look themselves / ancestors / other names up with and without allowEarlyReference, query IsSingletonCurrentlyInCreation, swallow or propagate nested failures, fail or succeed; histories continue after failures with re-lookups and re-creations. (2) traced real starts of cyclic / faulty scenarios (Init / AfterPropertiesSet failures in eager and lazy components) continued after App.Run with three rounds of GetComponentByName for every name; half of the injected faults are transient (fail once), and after a successful re-attempt the re-created components' wiring is compared per point with the reference model and for identity. Clauses: (a) all lookups during one creation see one early reference, early factory yields at most one reference per creation; (b) after publication every lookup returns the published instance and the name is not in creation; (c) after a failed creation the name is not in creation and no lookup returns an instance with a nil error unless a new creation completed. non-trivial = history with a nested create and an early lookup (and, counted separately, a failure followed by a lookup); distinct = trace shape hash"
 }
 func (c04) Assumptions() []string {
 	return []string{
@@ -411,41 +411,75 @@ func renderTrace(ev []mon.TraceEv, n int) []string {
 // (2) traced real starts, continued after the start
 
 func (p c04) traced(c *core.Ctx) {
-	sc := RandomGraph(c.Rng, GraphOpts{MinN: 2, MaxN: 10, Types: world.TypesAll, PCycle: 0.8, Chords: 2, ByTypeSlice: 0.15, QualSlice: 0.15, PUnnamed: 0.3})
-	// inject faults: init / aps failures in some components (lazy ones are only hit by the later lookups)
+	sc := RandomGraph(c.Rng, GraphOpts{MinN: 2, MaxN: 10, Types: world.TypesAll, PCycle: 0.8, Chords: 2, ByTypeSlice: 0.3, QualSlice: 0.2, PUnnamed: 0.3})
+	// inject faults: init / aps failures in some components (lazy ones are only hit by the later lookups);
+	// half of them transient (fail on the first invocation only), so that a later lookup re-attempts
+	// the creation successfully
+	transient := false
 	for i := range sc.Nodes {
 		ti := world.Palette[sc.Nodes[i].Type]
 		if c.Rng.Intn(4) == 0 {
+			kind := ""
 			if ti.Init && c.Rng.Intn(2) == 0 {
-				sc.Nodes[i].Fails = append(sc.Nodes[i].Fails, "init")
+				kind = "init"
 			} else if ti.Aps {
-				sc.Nodes[i].Fails = append(sc.Nodes[i].Fails, "aps")
+				kind = "aps"
+			}
+			if kind == "" {
+				continue
+			}
+			if c.Rng.Intn(2) == 0 {
+				sc.Nodes[i].FailOnce = append(sc.Nodes[i].FailOnce, kind)
+				transient = true
+			} else {
+				sc.Nodes[i].Fails = append(sc.Nodes[i].Fails, kind)
 			}
 		}
 	}
-	var extra []any
-	if c.Rng.Intn(3) == 0 {
-		plan := map[string]world.SubPlan{}
-		nm := sc.Nodes[c.Rng.Intn(len(sc.Nodes))].DisplayName()
-		plan[nm] = world.SubPlan{Early: c.Rng.Intn(2) == 0, After: c.Rng.Intn(3) == 0}
-		_ = plan // substitution changes interface sets of runner/closer types; keep the histories substitution-free
-	}
-	r := world.Start(sc, world.Options{Extra: extra})
+	r := world.Start(sc, world.Options{})
 	if r.Outcome() == "panic" || r.Outcome() == "diverged" {
 		c.Count("abnormal_starts_skipped", 1)
 		return
 	}
 	r.Tracer.ResetBudget(200000)
-	for round := 0; round < 2; round++ {
+	lookupErr := map[string]bool{}
+	for round := 0; round < 3; round++ {
 		for i := range sc.Nodes {
 			name := sc.Nodes[i].DisplayName()
-			r.Guard(func() { r.App.GetComponentByName(name) })
+			var err error
+			r.Guard(func() { _, err = r.App.GetComponentByName(name) })
 			if r.Panic != nil || r.Diverge != nil {
 				c.Fail("", "lookup after the start: "+r.OutcomeDetail(), failDetail(sc, r, nil))
 				return
 			}
+			lookupErr[name] = err != nil
 		}
 	}
 	c.Count("start_outcome_"+r.Outcome(), 1)
 	p.judge(c, r.Tracer.Events(), "traced", failDetail(sc, r, nil))
+	if c.Failed() {
+		return
+	}
+	// nothing of a failed attempt stays visible: once every component could be looked up successfully
+	// (permanent faults excluded), the wiring must be exactly what a clean creation gives - per point
+	// against the model (in particular every slice element exactly once).
+	for _, bad := range lookupErr {
+		if bad {
+			return
+		}
+	}
+	if !transient {
+		return
+	}
+	pop := world.Describe(r.Population())
+	points := r.NodePoints(pop)
+	var ps []string
+	for _, cmp := range r.CheckWiring(pop, points) {
+		ps = append(ps, cmp.Kind+": "+cmp.Msg)
+	}
+	ps = append(ps, r.CheckIdentity(pop)...)
+	c.Count("recreated_after_transient_failure_checked", 1)
+	if len(ps) > 0 {
+		c.Fail("", "after a creation that failed once and was re-attempted successfully: "+ps[0], failDetail(sc, r, map[string]any{"problems": ps}))
+	}
 }
